@@ -144,11 +144,11 @@ theorem primaryGC_h (hU : Univ c.kind U) {m : Mem} {d : Disk} {k pf : Nat} {psp 
   | deadline =>
     simp only [Option.some.injEq] at hres; subst hres
     obtain ⟨psp1, h⟩ := hS1 (by decide)
-    exact ⟨k, pf, psp1, h⟩
+    exact ⟨k, pf, psp1, h.visited _⟩
   | err =>
     simp only [Option.some.injEq] at hres; subst hres
     obtain ⟨psp1, h⟩ := hS1 (by decide)
-    exact ⟨k, pf, psp1, h⟩
+    exact ⟨k, pf, psp1, h.visited _⟩
   | ok =>
   obtain ⟨psp1, hS1'⟩ := hS1 (by decide)
   have hp2 := freelistPass_h hU hS1' (by omega) b1
@@ -167,11 +167,11 @@ theorem primaryGC_h (hU : Univ c.kind U) {m : Mem} {d : Disk} {k pf : Nat} {psp 
   | deadline =>
     simp only [Option.some.injEq] at hres; subst hres
     obtain ⟨psp2, h⟩ := hS2 (by decide)
-    exact ⟨k, pf, psp2, h⟩
+    exact ⟨k, pf, psp2, h.visited _⟩
   | err =>
     simp only [Option.some.injEq] at hres; subst hres
     obtain ⟨psp2, h⟩ := hS2 (by decide)
-    exact ⟨k, pf, psp2, h⟩
+    exact ⟨k, pf, psp2, h.visited _⟩
   | ok =>
   obtain ⟨psp2, hS2'⟩ := hS2 (by decide)
   have hS3 := hS2'.visited (m2.visited.filter (fun f => !(aff1 ++ aff2).contains f))
